@@ -10,6 +10,7 @@ MCNoOwner == <<>>
 
 SymNodes == Permutations({n1, n2, n3})
 SymClients == Permutations({c1, c2})
+SymNodes2 == Permutations({n1, n2})
 Sym == SymNodes \cup SymClients
 
 \* the liveness instance is cut off at the horizon
